@@ -28,3 +28,29 @@ Definition imp_run_case (ls : list (list string)) : list string :=
    | Some _ => "other"
    | None => "nofuel"
    end].
+
+(* ---- sylvia/src/into_response.rs (GenImp.resp_program) run on an encoded response ---- *)
+Fixpoint insert_field (f : string * value) (l : list (string * value)) : list (string * value) :=
+  match l with
+  | [] => [f]
+  | g :: r => match String.compare (fst f) (fst g) with Gt => g :: insert_field f r | _ => f :: l end
+  end.
+
+(* records compared up to the order of their fields *)
+Fixpoint norm_value (v : value) : value :=
+  match v with
+  | VArr l => VArr (map norm_value l)
+  | VCon c l => VCon c (map norm_value l)
+  | VRec c fs => VRec c (fold_right insert_field [] (map (fun p : string * value => (fst p, norm_value (snd p))) fs))
+  | _ => v
+  end.
+
+Definition resp_outcome (E : list string) (n : nat) (v : value) : list string :=
+  [match call (resp_program E) 3 (60 * S n + 100) "Response::into_response" [v] with
+   | Some (CVal (VCon "Ok" [v'])) => if value_eqb (norm_value v) (norm_value v') then "same" else "changed"
+   | Some (CVal (VCon "Err" [VCon "From::from" [VCon "From::from" [VCon "StdError::GenericErr" [VStr m]]]])) =>
+       if m =? "Custom Empty message should not be sent" then "custom" else "error"
+   | Some (CVal (VCon "Err" _)) => "error"
+   | Some _ => "other"
+   | None => "stuck"
+   end].
